@@ -14,7 +14,10 @@ import shutil
 import tempfile
 from pathlib import Path
 
-from ..asmcore import explore, render, kinds_of, tags_for
+import random
+
+from ..asmcore import explore, explore_given, render, kinds_of, tags_for
+from .. import gen as G
 from ..common import MachineryError, tmp_root
 from ..drive import asm, pmap, run_cli
 from ..tlc import run_tlc, require_ok
@@ -164,8 +167,22 @@ def main(run):
     recs, inc = explore(run, "ListAlphabet", "ListIncFiles", 3, 1, [512], label="AsmCore listing, 1 file x 3 stmts (exhaustive)")
     recs2, inc2 = explore(run, "ListAlphabet", "ListIncFiles", 4, 3, [512, 1026], simulate=(8000 if thorough else 1200), depth=14, seed=run.seed + 19,
                           label="AsmCore listing simulation (<= 4 stmts x 3 files)")
+    # many source files: 3 linked files and 9-14 inclusions (more than nine file instances; every inclusion of a file lists its
+    # symbols again under that file's name) -- written by the harness, evaluated by AsmCore.tla in "given" mode
+    rnd = random.Random(run.seed + 5)
+    progs = []
+    for k in ([9, 10, 12, 14] if not thorough else list(range(7, 19))):
+        body = []
+        for j in range(k):
+            body.append(G.insn("nop") if rnd.random() < 0.5 else G.byte(G.num(j)))
+            body.append({"k": "include", "f": 1})
+        cut1, cut2 = len(body) // 3, 2 * len(body) // 3
+        progs.append([body[:cut1] + [G.lab("a")], body[cut1:cut2] + [G.const("n", G.num(-5))], body[cut2:] + [G.lab("b")]])
+        progs.append([[G.lab("a")] + body + [G.const("z", G.num(0))]])
+    recs3, _ = explore_given(run, progs, "ListIncFiles", [512], label=f"AsmCore given: {len(progs)} programs with up to 14 inclusions")
+    run.note("many_file_programs", {"generated": len(progs), "accepted_by_spec": sum(1 for r in recs3 if r["ok"])})
     seen, tasks = set(), []
-    for r in recs + recs2:
+    for r in recs + recs2 + recs3:
         key = repr(r["files"])
         if key in seen or not r["ok"] or r.get("skip"):
             continue
